@@ -31,7 +31,7 @@ func init() {
 	Register(&Scenario{Prop: "C20", Name: "oneonone-pair", Run: scenC20OneOnOne, Weight: 1,
 		Rule: "two real oneonone adapters over the simulated pubsub (delivery delayed and interleaved by the kernel, no loss); both sides Connect, then 2-12 Sends from both sides interleaved with kernel steps, payload sizes from {0,1,100,64 KiB}; oracle: both ends subscribed to one and the same channel topic; each side's adapter emits exactly the payloads the other side sent (multiset, byte-identical), attributed to the other peer, and none of its own; non-trivial = both sides sent >=1 payload"})
 	Register(&Scenario{Prop: "C20", Name: "directchannel-streams", Run: scenC20Direct, Weight: 1,
-		Rule: "two real directchannel adapters over the stub libp2p host; 3-10 Sends with payload sizes from {0,1,100,64 KiB,1 MiB,4 MiB-1,4 MiB,4 MiB+1} travelling in kernel-chosen chunks (1 byte .. whole frame, so short reads happen), streams interleaved; faults drawn per stream: none, reset mid-frame, truncation mid-frame; plus hostile raw frames on the victim's handler (length prefix 0, exact, larger than the body, 4 MiB+1, 2^32, 2^63, 2^64-1, unterminated varint, empty stream); oracle: a frame within the limit that arrived completely produces exactly one event with the sender as peer and identical bytes; oversized, reset, truncated and malformed frames produce no event and never crash the process; frames sent afterwards are delivered; non-trivial = >=1 complete frame after >=1 refused or broken one"})
+		Rule: "two real directchannel adapters over the stub libp2p host; 3-10 Sends with payload sizes from {0,1,100,64 KiB,1 MiB,4 MiB-1,4 MiB,4 MiB+1} travelling in kernel-chosen chunks (1 byte .. whole frame, so short reads happen), streams interleaved; faults drawn per stream: none, reset mid-frame, truncation mid-frame; plus hostile raw frames on the victim's handler (length prefix 0, exact, larger than the body, 4 MiB+1, 2^32, 2^63, 2^64-1, unterminated varint, empty stream); oracle: a frame within the limit that arrived completely produces exactly one event with the sender as peer and identical bytes; oversized, reset, truncated and malformed frames produce no event and never crash the process; frames sent afterwards are delivered; non-trivial = >=1 complete frame after >=1 refused or broken one; one step in five (outside floods) is two Send calls on the same channel at the same time, each frame having to arrive as it was sent"})
 }
 
 // ---------------- pubsubcoreapi over a scripted API ----------------
@@ -570,6 +570,42 @@ func scenDirect(k *K, prop string, forceFlood bool) {
 		from := k.C.Intn(2)
 		if flood {
 			from = 1 // everything goes to side 0
+		}
+		if !flood && k.C.Chance(1, 5) {
+			// two Send calls on the same channel at the same time (two stores exchanging heads
+			// with the same peer): each frame must arrive as it was sent
+			before := len(k.W.streams)
+			var ops []*Op
+			var pls [][]byte
+			for j := 0; j < 2; j++ {
+				pl := genPayload(k, []int{1, 100, 4096, 64 * 1024}, fmt.Sprintf("d%d.%d.%d:", from, i, j))
+				pls = append(pls, pl)
+				ops = append(ops, k.Go(from, fmt.Sprintf("send len=%d (concurrent)", len(pl)), func() (interface{}, error) {
+					return nil, chans[from].Send(ctx, nodes[1-from].ID, pl)
+				}))
+			}
+			k.Wait()
+			for j := 0; j < 20 && !(k.IsDone(ops[0]) && k.IsDone(ops[1])); j++ {
+				pump(5)
+			}
+			for j, op := range ops {
+				if !k.IsDone(op) || op.Err != nil {
+					k.Failf(prop+"/direct/send-error", "concurrent Send of %d bytes failed: done=%v err=%v", len(pls[j]), k.IsDone(op), op.Err)
+				}
+			}
+			k.W.mu.Lock()
+			news := append([]*SimStream(nil), k.W.streams[before:]...)
+			k.W.mu.Unlock()
+			for j, pl := range pls {
+				fr := &frame{to: 1 - from, payload: pl}
+				if j < len(news) {
+					fr.s = news[j]
+				}
+				frames = append(frames, fr)
+			}
+			k.W.Stat("concurrent-sends-on-one-channel")
+			pump(k.C.Intn(40))
+			continue
 		}
 		pl := genPayload(k, sizes, fmt.Sprintf("f%d.%d:", from, i))
 		fault := ""
